@@ -261,7 +261,7 @@ class LogRun:
             name = type(m).__name__
             exp = exp_orbax if kind == "orbax" else exp_std
             paths_all = []
-            for key in set(list(exp) + list(getattr(m, "checkpoint_path", {}))):
+            for key in sorted(set(list(exp) + list(getattr(m, "checkpoint_path", {})))):
                 got = list(m.checkpoint_path.get(key, []))
                 want = exp.get(key, [])
                 res.log.add("ckpt", name, key, len(got), [w[1] for w in want])
